@@ -22,17 +22,23 @@ TRUSTED = [
     "Coq 8.16.1 kernel (vm_compute used in Examples / witnesses only)",
     "hand-written model coq/C12/Unify.v of unify/_unify_var/_occurs/_unify_args/Substituter over the term shape of coq/C12/Ty.v; tied to the code only by the differential harness below (generator, canonicaliser, stub OpaqueTypeDef/StructDef objects in impl_unify.py, tools/repo_shim.py)",
     "id conventions of Ty.v (an existential id determines sort and copy/drop flags, a definition id its never_copyable/never_droppable flags); const `ty` fields, names, `preserve`, `unitary_flags` are not modelled",
-    "the model describes ty.py WITH props/C12/fix-1.patch applied (resolved occurs check `_occurs`, chasing of solved const variables)",
+    "the model describes ty.py with the committed repair (resolved occurs check `_occurs`, chasing of solved const variables)",
+    "calls: synth_call models type_check_args/synthesize_call for synthesised (closed) argument types; tied to the real check() of generated @guppy.declare functions (impl_call.py: program text generator, reading GlobalCall.type_args); checking position and comptime arguments are not modelled",
 ]
 ASSUMPTIONS = [
     "input substitutions are acyclic (wfs): the graph x -> vars(subst[x]) is well-founded",
     "identity of types is taken modulo what unify never looks at: input flags of function types (only compared when both inputs are linear) and the copy/drop flags of bound variables; completeness is stated for exact identity",
     "existential variables are identified by id (ids are globally fresh in /repo)",
+    "call theorems: parameter types contain no stored comptime args (plain), argument types are closed, every quantified variable occurs in a parameter type; numeric widening (try_coerce_to) makes acceptance order dependent, so exact instance => accepted => instance up to widening",
 ]
 
 
 def n_cases(ctx):
     return (800, 100, 100) if ctx.quick else (12000, 1000, 1000)
+
+
+def n_calls(ctx):
+    return 120 if ctx.quick else 1200
 
 
 def canon(res):
@@ -52,7 +58,7 @@ def model_results(ctx, cases):
             name = f"{kind}{j // 400}"
             body = ["From Coq Require Import ZArith NArith List Bool.", "From V.C12 Require Import Ty Unify.",
                     "Import ListNotations.", "Definition cases := ["]
-            body.append(";\n".join(G.case_to_coq(cases[i], FUEL) for i in chunk) + "].")
+            body.append(";\n".join((G.call_to_coq(cases[i], FUEL) if kind == "call" else G.case_to_coq(cases[i], FUEL)) for i in chunk) + "].")
             body.append("Eval vm_compute in cases.")
             files[name] = "\n".join(body)
             order.append((name, chunk))
@@ -201,6 +207,7 @@ def correspondence(ctx, info):
                            {"case": c, "s": G.pretty(c["s"]) if "s" in c else None, "t": G.pretty(c["t"]),
                             "implementation": _show(i) if c["kind"] == "unify" else i,
                             "model": _show(m) if c["kind"] == "unify" else m, "replay": replay_snippet(c)})
+    call_stats = call_correspondence(ctx, r)
     if not info["ok"] and not ctx.violations and not ctx.known_hits:
         ctx.report("proof-broken:" + str(info["failed"]), "proof-broken", str(info["failed"]),
                    {"coq_error": vlib.CoqResult(False, info["log"]).error_excerpt(), "searched_cases": len(cases)},
@@ -219,9 +226,83 @@ def correspondence(ctx, info):
         oracle_verdicts=dict(verdicts), new_bindings_histogram={str(k): v for k, v in sorted(sizes.items())},
         cases_with_prior_substitution=sum(1 for c in un if c["sigma"]),
         cases_where_resolved_occurs_check_decides=occurs_resolved,
+        **call_stats,
         samples=[{"s": G.pretty(cases[j]["s"]), "t": G.pretty(cases[j]["t"]),
                   "prior": {f"?{x}": G.pretty(u) for x, u in cases[j]["sigma"]}, "impl": _show(impl[j])} for j in pick],
         notes=ctx.notes)
+
+
+def judge_call(c, impl):
+    """Spec side for calls (independent of the model): does an instantiation of the quantified
+    variables make the arguments fit?  Returns (verdict, failure_or_None)."""
+    ins, acts, params = c["ins"], c["acts"], c["params"]
+    if len(ins) != len(acts):
+        return "arity", ("accepted a call with the wrong number of arguments" if impl[0] == 1 else None)
+    ex = G.oracle(G.tup(*ins), G.tup(*acts), [], False)
+    nn = [(i, a) for i, a in zip(ins, acts) if not G.is_num(a)]
+    er_nn = G.oracle(G.tup(*[i for i, _ in nn]), G.tup(*[a for _, a in nn]), [], True)
+    must_accept = ex is not None and all(p in ex and G.bound_ok(p, ex[p]) for p in params)
+    must_reject = er_nn is None or (ex is not None and len(nn) == len(ins) and not all(p in ex and G.bound_ok(p, ex[p]) for p in params))
+    verdict = "instance-exists" if must_accept else ("no-instance" if must_reject else "widening-or-flags")
+    if impl[0] == 1:
+        if must_reject:
+            return verdict, "accepted although no instantiation of the parameters makes the arguments fit"
+        th = {p: deser(t) for p, t in zip(params, impl[1])}
+        for i, a in zip(ins, acts):
+            u = G.resolve(i, th)
+            if G.erase(u) != G.erase(a) and not (G.is_num(a) and G.is_num(u) and a[1][1] < u[1][1]):
+                return verdict, "accepted, but the inferred instantiation does not make an argument fit"
+        if not all(G.bound_ok(p, th[p]) for p in params):
+            return verdict, "accepted, but the inferred instantiation violates a copy/drop bound"
+    elif impl[0] == 0 and must_accept:
+        return verdict, "rejected although an instantiation makes every argument type equal to the parameter type"
+    elif impl[0] not in (0, 1):
+        return verdict, f"checker crashed: {impl[1]}"
+    return verdict, None
+
+
+def call_correspondence(ctx, r):
+    g = G.CallGen(r)
+    cases = []
+    f = ctx.dir / "corpus_calls.json"
+    if f.exists():
+        cases += json.loads(f.read_text())
+    cases += [g.case() for _ in range(n_calls(ctx))]
+    payload = [{k: v for k, v in c.items() if k != "shape"} for c in cases]
+    impl = []
+    for j in range(0, len(payload), 400):
+        impl += json.loads(ctx.impl("impl_call.py", payload[j:j + 400], args=[str(ctx.scratch / f"c12_calls_{j}.py")]))
+    impl_c = [[x[0], x[1] if x[0] == 1 else []] for x in impl]
+    model = None
+    try:
+        model = [[m[0], [list(t) for t in m[1]]] for m in model_results(ctx, cases)]
+    except Exception as e:  # noqa: BLE001
+        ctx.notes.append(f"call model evaluation failed: {str(e)[:1500]}")
+    verdicts, fails, dis = Counter(), 0, 0
+    for k, (c, i) in enumerate(zip(cases, impl)):
+        v, why = judge_call(c, i)
+        verdicts[v] += 1
+        key = "call:" + G.key([c["params"], c["ins"], c["acts"]])
+        show = {"signature": "f(" + ", ".join(G.annot(t) for t in c["ins"]) + ")", "arguments": [G.annot(t) for t in c["acts"]],
+                "params": c["params"], "implementation": i if i[0] != 1 else {"accepted_inst": [G.pretty(deser(t)) for t in i[1]]},
+                "model": model[k] if model else None, "case": c,
+                "replay": "printf '%s' '" + json.dumps([payload[k]]) + "' | PYTHONPATH=/verif/tools:/verif/props/C12:$REPO/guppylang/src:$REPO/guppylang-internals/src /venv/bin/python /verif/props/C12/impl_call.py /tmp/c12_call_replay.py   # REPO=/repo; the generated program is left in /tmp/c12_call_replay.py"}
+        if why:
+            fails += 1
+            if fails <= 3:
+                ctx.report(key, "counterexample", "generic call vs instantiation oracle: " + why, show)
+        elif model is not None and impl_c[k] != model[k]:
+            dis += 1
+            if dis <= 3:
+                ctx.report(key, "correspondence", "model synth_call (coq/C12/Unify.v) vs /repo check() of a generic call", show)
+    if model is None:
+        ctx.report("call-model-eval", "correspondence", "call model could not be evaluated", {"notes": ctx.notes}, found_input=False)
+    return dict(call_cases=len(cases), call_shapes=dict(Counter(c["shape"] for c in cases)),
+                call_impl_outcomes=dict(Counter({1: "accepted", 0: "rejected"}.get(i[0], "crash") for i in impl)),
+                call_rejection_kinds=dict(Counter(i[1] for i in impl if i[0] == 0)),
+                call_oracle_verdicts=dict(verdicts), call_model_impl_disagreements=dis, call_spec_failures=fails,
+                call_samples=[{"signature": [G.annot(t) for t in cases[j]["ins"]], "arguments": [G.annot(t) for t in cases[j]["acts"]],
+                               "impl": impl[j]} for j in (0, len(cases) // 2, len(cases) - 1)])
 
 
 def _unifiable_without_occurs(c):
